@@ -145,11 +145,8 @@ impl<K: Ord + Copy, V> Dag<K, V> {
 
     /// Merge a DAG into this one.
     pub fn merge(&mut self, mut other: Self) {
-        let Some((root, _)) = other.roots().next() else {
-            return;
-        };
         let mut visited = BTreeSet::new();
-        let mut queue = VecDeque::<K>::from([*root]);
+        let mut queue = other.roots.iter().copied().collect::<VecDeque<K>>();
 
         while let Some(next) = queue.pop_front() {
             if !visited.insert(next) {
